@@ -64,6 +64,9 @@ def main():
     a = ap.parse_args()
     ids = sorted(s for s in os.listdir(os.path.join(VERIF, "seeded")) if a.k in s
                  and os.path.exists(os.path.join(VERIF, "seeded", s, "meta.json")))
+    # seeds that exposed a latent defect which was then repaired in /repo no longer break the property on the repaired
+    # tree (their rule is exercised by the inverse-fix mutant instead)
+    ids = [s for s in ids if "superseded_by_fix" not in json.load(open(os.path.join(VERIF, "seeded", s, "meta.json")))]
     bad = 0
     with cf.ThreadPoolExecutor(a.j) as ex:
         for sid, verdict, detail, meta in ex.map(run_one, [(s, a.tier, a.all_checks, a.record) for s in ids]):
